@@ -25,12 +25,13 @@ IDLE, CMD_WAIT, TX_DATA, RW_DATA, RW_STP, RR_TURN, RR_DATA = "idle", "cmdw", "tx
 
 
 class ULPIPhy:
-    def __init__(self, allow_dir_in_tx=False, max_stall=None, clean_rx=False):
+    def __init__(self, allow_dir_in_tx=False, max_stall=None, clean_rx=False, rxcmd_after_nxt_start=False):
         self.regs = dict(RESET_REGS)
         self.allow_dir_in_tx = allow_dir_in_tx
         self.max_stall = max_stall                  # NXT is never withheld for more than this many cycles
         self.clean_rx = clean_rx          # avoid the triggers of the open C22 findings (see UlpiRx.tla KF_*)
         self.forced = None
+        self.rxcmd_after_nxt_start = rxcmd_after_nxt_start   # always announce RxActive by an RxCmd after DIR+NXT
         self.stalled = 0
         self.cmd_started = False                    # the coming cycle carries an RxCmd that raises RxActive
         self.last_write_t = -100
@@ -175,7 +176,7 @@ class ULPIPhy:
                         and not self.nxt_started:
                     self.forced = ("cmd", b)          # KF_StaleCmdStart: clear RxActive by an RxCmd first
                     b &= 0xCF
-            if self.nxt_started and rx != "down":
+            if self.nxt_started and self.rxcmd_after_nxt_start and rx != "down":
                 # [ULPI 1.1 Fig. 17] the turn-around of a DIR+NXT start is followed by the RxCmd announcing RxActive
                 if not (rx == "cmd" and b & 0x10):
                     b = (self.last_cmd & 0xCF) | 0x10
